@@ -264,7 +264,9 @@ def seal_extra(prop, tier, seed):
                 for sub in itertools.combinations(opt, k):
                     for wr in (True, False):
                         for ws in (False, True):
-                            ops.append(dict(op="Rec", t=t, present=list(sub), wrapper=wr, withState=ws))
+                            ops.append(dict(op="Rec", t=t, present=list(sub), wrapper=wr, withState=ws, rot=False))
+                            if wr:
+                                ops.append(dict(op="Rec", t=t, present=list(sub), wrapper=wr, withState=ws, rot=True))
         for n in ("authorize", "token", "rotate", "dial", "dialtoken"):
             for ws in (False, True):
                 ops.append(dict(op="Flow", name=n, withState=ws))
